@@ -254,6 +254,7 @@ pub fn families() -> Vec<Box<dyn Family>> {
                 let _ = rb;
                 out.sample(|| format!("alg={} radius={} old={} new={}", alg_name(alg), radius, fmt_seq(&a), fmt_seq(&b)));
                 out.eval();
+                let rng_bits = rng.below(4);
                 let r = guard(|| {
                     let d = TextDiff::configure().algorithm(alg).diff_slices(&ra, &rb2);
                     type R<'x> = (ChangeTag, Option<usize>, Option<usize>, &'x str);
@@ -332,6 +333,34 @@ pub fn families() -> Vec<Box<dyn Family>> {
                         let exp: Vec<R> = h.ops().iter().flat_map(|op| d.iter_changes(op)).map(|c| (c.tag(), c.old_index(), c.new_index(), c.value())).collect();
                         if got != exp {
                             fails.push(("expand.hunk_iter_changes", format!("hunk ops {:?}: iter_changes gives {:?}, per-op expansion {:?}", h.ops(), got, exp)));
+                        }
+                    }
+                    // a hunk built by the caller from an arbitrary selection of the ops (public
+                    // UnifiedDiffHunk::new): not contiguous, possibly out of order
+                    {
+                        let ops = d.ops();
+                        let mut pick: Vec<similar::DiffOp> = ops.iter().copied().step_by(2).collect();
+                        if rng_bits & 1 == 1 {
+                            pick.reverse();
+                        }
+                        if rng_bits & 2 == 2 && ops.len() > 2 {
+                            pick = vec![ops[ops.len() - 1], ops[0], ops[ops.len() / 2]];
+                        }
+                        let h = similar::udiff::UnifiedDiffHunk::new(pick.clone(), &d, true);
+                        let got: Vec<R> = h.iter_changes().map(|c| (c.tag(), c.old_index(), c.new_index(), c.value())).collect();
+                        let exp: Vec<R> = pick.iter().flat_map(|op| d.iter_changes(op)).map(|c| (c.tag(), c.old_index(), c.new_index(), c.value())).collect();
+                        if got != exp {
+                            fails.push(("expand.hunk_iter_changes", format!("UnifiedDiffHunk::new over the caller-chosen ops {:?}: iter_changes gives {:?}, per-op expansion {:?}", pick, got, exp)));
+                        }
+                        // and per-op expansion against the reference for these ops
+                        let mut reference2: Vec<R> = Vec::new();
+                        for op in &pick {
+                            for c in op.iter_changes(&ra[..], &rb2[..]) {
+                                reference2.push((c.tag(), c.old_index(), c.new_index(), c.value()));
+                            }
+                        }
+                        if exp != reference2 {
+                            fails.push(("expand.textdiff_iter_changes", "TextDiff::iter_changes(op) differs from DiffOp::iter_changes over the token slices".to_string()));
                         }
                     }
                     (fails, all.len(), nh)
